@@ -20,7 +20,7 @@
    _instantiate_fields_if_needed, _apply_default_and_update_required_...), fields/collections_impl.py
    (_CollectionMeta), fields/multified_wrappers.py, fields/{array,set_field,tuple_field,map_field}.py. *)
 From Coq Require Import ZArith NArith String List Bool. Import ListNotations.
-From TP Require Import Base.PyVal Fields.FieldAst Fields.SetChain Gen.TypeMapping.
+From TP Require Import Base.PyVal Fields.FieldAst Fields.SetChain Gen.TypeMapping Gen.AnnotGuards.
 Local Open Scope string_scope.
 
 (* ------------------------------------------------------------------ syntax of spellings *)
@@ -463,12 +463,24 @@ Section Decl.
   (* Field._try_default_value: the exception class is preserved *)
   Definition try_default (f : field) (d : pyval) : res unit := _ <- vset re_match e f d ;; Ok tt.
 
-  (* Field.__init__: `if default:` — a falsy default is not validated here *)
+  (* Field.__init__: `if default:` — a falsy default is not validated here.  WHICH test guards the validation is
+     read from the source on every run (Gen/AnnotGuards.v init_default_rule: `if default:` / `if default is not None:`) *)
+  Definition init_validates (d : pyval) : bool :=
+    match init_default_rule with
+    | InitDefaultIfNotNone => match d with PNone => false | _ => true end
+    | _ => py_truthy d
+    end.
   Definition init_default (f : field) (kw : option pyval) : res unit :=
-    match kw with Some d => if py_truthy d then try_default f d else Ok tt | None => Ok tt end.
+    match kw with Some d => if init_validates d then try_default f d else Ok tt | None => Ok tt end.
 
+  (* "Got a mutable value as default": isinstance(default, <the tuple in the source>), Gen/AnnotGuards.v *)
   Definition is_mutable_default (d : pyval) : bool :=
-    match d with PList _ | PDict _ | PSet false _ => true | _ => false end.
+    match d with
+    | PList _ => str_in (s2p "list") mutable_default_types
+    | PDict _ => str_in (s2p "dict") mutable_default_types
+    | PSet false _ => str_in (s2p "set") mutable_default_types
+    | _ => false
+    end.
 
   (* a default given with `=` is validated whenever the field has no truthy _default yet
      (c(default=d) for classes, _try_default_value / _apply_default_... otherwise) *)
@@ -508,6 +520,27 @@ Section Decl.
   (* the class: its fields (with defaults) and its _required (no predefined _required, base Structure) *)
   Definition class_result (ds : list decl) : res (list fres * list pystr) :=
     rs <- mapM decl_result ds ;;
+    let fs := somes rs in
+    Ok (fs, map fr_name (filter (fun r => negb (has_default r) && negb (fr_optional r)) fs)).
+
+  (* ---------------------------------------------------------------- from __future__ import annotations *)
+  (* The compiler stores every annotation as its source text; _evaluate_if_future_annotations evaluates the text
+     (same module globals, same frame locals: the object [pyeval] describes) only under the guard read from the
+     source (Gen/AnnotGuards.v future_rule: today `isinstance(v, str) and len(v) < 50`).  A text that is not evaluated
+     stays a str: not a Field, not generic, not in the type table — get_typing_lib_info returns None and the
+     annotation is IGNORED (a `= d` next to it stays a plain class attribute).  [len] = length of the stored text. *)
+  Definition future_evaluated (len : Z) : bool :=
+    match future_rule with
+    | FutureEvalBelow n => (len <? n)%Z
+    | FutureEvalAlways => true
+    | FutureUnrecognised => true
+    end.
+
+  Definition decl_result_future (len : Z) (d : decl) : res (option fres) :=
+    if d_annot d && negb (future_evaluated len) then Ok None else decl_result d.
+
+  Definition class_result_future (ds : list (Z * decl)) : res (list fres * list pystr) :=
+    rs <- mapM (fun p => decl_result_future (fst p) (snd p)) ds ;;
     let fs := somes rs in
     Ok (fs, map fr_name (filter (fun r => negb (has_default r) && negb (fr_optional r)) fs)).
 End Decl.
